@@ -82,7 +82,7 @@ def strat_case(draw):
     else:
         axis = draw(st.sampled_from([None, 0, 1]))
         lane = draw(st.integers(8, 24))
-        lanes = draw(st.sampled_from([1, 1, 2, 3, 6]))
+        lanes = draw(st.sampled_from([1, 1, 2, 3, 6, lane]))  # the last choice makes the array square
         if axis == 0:
             shape = [lane, lanes]
         elif axis == 1:
